@@ -12,6 +12,10 @@ CALLS = {"CallExpr", "CXXMemberCallExpr", "CXXOperatorCallExpr"}
 CTORS = {"CXXConstructExpr", "CXXTemporaryObjectExpr"}
 
 
+# function key -> member name, for methods whose whole body is `return <this-member>;` (filled by Facts)
+GETTERS = {}
+
+
 class Function:
     def __init__(self, d, unit):
         self.d = d
@@ -154,6 +158,10 @@ class Function:
             args = tuple(self.term(a) for a in nd.get("args", []))
             if k == "CXXMemberCallExpr":
                 obj = self.term(nd["obj"]) if "obj" in nd else ("?",)
+                g = GETTERS.get(nd.get("fn")) if not args else None
+                if g is not None:
+                    # trivial accessor (`return member;`): the call *is* the member
+                    return ("mem", ("this",) if obj == ("this",) else obj, g)
                 if nd.get("fname") in ("size", "length") and (nd.get("mrec") or "").startswith("std::") and not args:
                     return ("size", obj)
                 if nd.get("fname") == "max_size" and (nd.get("mrec") or "").startswith("std::") and not args:
@@ -281,6 +289,16 @@ class Facts:
                     tgt[fn.key] = fn
         for fn in self.functions.values():
             self.by_qn.setdefault(fn.qn, []).append(fn)
+        GETTERS.clear()
+        for fn in self.functions.values():
+            if fn.cls and not fn.params and fn.body is not None and not fn.d.get("ctor"):
+                ks = fn.kids(fn.body)
+                if len(ks) == 1 and fn.n(ks[0])["k"] == "ReturnStmt" and "value" in fn.n(ks[0]):
+                    v = fn.n(fn.strip(fn.n(ks[0])["value"]))
+                    if v["k"] == "MemberExpr" and v.get("mk") == "field":
+                        base = fn.kids(v["id"])
+                        if base and fn.n(fn.strip(base[0]))["k"] == "CXXThisExpr":
+                            GETTERS[fn.key] = v["m"]
         # override relation
         self.overriders = {}
         for r in self.records.values():
